@@ -223,6 +223,55 @@ def r2_flatten(ctx):
                             order_ok = body.get("k") == "tup" and [e4.local_hid(z) for z in body["xs"]] == [h for (_, h) in b2]
                 okg = [e4.local_hid(d) for d in dims] == want and pretty(elem) in ("*iter.next().unwrap()", "iter.next().unwrap()") and src_ok and order_ok
                 detail = "ranges %s elem %s" % ([pretty(d) for d in dims], pretty(elem))
+    if not okg:
+        # the same fact on the E6 summary: the Single arm returns a C x H x W nest (C, H, W the extents of the requested Shape::Triple, in
+        # order) whose elements are drawn, innermost loop fastest, from ONE iterator over the vector - map/collect chains or push loops
+        from .. import e6
+        E = e6.Exec(c, fn)
+        SD = ("field", ("p", "self"), "data")
+        OUT = ("p", pat_binds(fn["params"][1])[0][0])
+        is_next = lambda e: e[0] == "mut" and e[1].rsplit("::", 1)[-1] == "next"
+
+        def nest(t):
+            es = e6.elementwise_sequence(E, t, allow=is_next)
+            if es is None:
+                return [], t
+            rng = e6.range_of(es[0])
+            if rng is None or rng[0] != ("lit", "0"):
+                return None
+            inner = nest(es[1])
+            if inner is None:
+                return None
+            return [rng[1]] + inner[0], inner[1]
+        okE = None
+        for p_ in E.run_fn():
+            if p_.exit is not None and p_.exit[0] != "return":
+                continue
+            if e6.variant_of(p_).get(SD) != "tensor::Data::Single":
+                continue
+            val_ = p_.val if p_.exit is None else p_.exit[1]
+            nv = nest(val_)
+            good = False
+            if nv is not None and len(nv[0]) == 3:
+                want = [("payload", OUT, "tensor::Shape::Triple", i_) for i_ in range(3)]
+                leaf = nv[1]
+                a1 = e6.is_call(leaf, "unwrap", 1) or e6.is_call(leaf, "expect")
+                a2 = e6.is_call(a1[0], "next", 1) if a1 else None
+                src = e6.strip_upd(a2[0]) if a2 else None
+                # the iterator: created once from the matched vector
+                root = src
+                while isinstance(root, tuple) and root and root[0] in ("loopin", "loopout"):
+                    root = root[3] if root[0] == "loopout" and len(root) == 4 else None
+                    if root is None:
+                        break
+                itname = e6.root_name(src) if src is not None else None
+                created = [v_ for v_ in p_.env.values() if isinstance(v_, tuple) and v_ and e6.root_name(v_) == itname]
+                vec_ = ("payload", SD, "tensor::Data::Single", 0)
+                from_vec = any(e6.contains(v_, vec_) for v_ in created) or (src is not None and e6.contains(src, vec_))
+                good = [e6.strip_upd(x) for x in nv[0]] == want and a2 is not None and itname is not None and from_vec
+                detail = "nest %s leaf %s" % ([e6.show(x, 2) for x in nv[0]], e6.show(leaf, 2)[:60])
+            okE = good if okE is None else (okE and good)
+        okg = bool(okE)
     ctx.check("R14.2", "get_triple:row-major-rebuild", okg, "get_triple:" + short(detail, 80), c.loc(fn), "nested ranges (oc, oh, ow) over one iterator of the vector")
 
 
@@ -264,33 +313,32 @@ def r3_constructors(ctx):
         TT_ = let_table(fn["body"])
         got = [cpretty(strip(z), TT_) for z in sh[0]["args"]] if sh else []
         ctx.check("R14.3", "constructor:" + nm, got == dims and sh[0]["callee"].lower().endswith(nm), "constructor-shape:%s:%s" % (nm, ",".join(got)), c.loc(fn), "shape = (%s)" % ", ".join(dims))
+    # zeros / ones: decided on the E6 summary - per rank the result is Tensor { shape: <the argument>, data: <rank>(nest) } where the
+    # nest is filled with the literal and has exactly the shape's own extents, outermost first (vec! nests, map/collect chains, mixed)
+    from .. import e6
     for nm, lit in (("zeros", "0.0"), ("ones", "1.0")):
         fn = ctx.fn(T + nm)
-        ph = pat_binds(fn["params"][0])[0][1]
-        m = [x for x in walk(fn["body"]) if x.get("k") == "match"][0]
-        for arm in m["arms"]:
-            vp, binds = e4.arm_variant(arm)
-            rank = vp.split("::")[-1]
-            if rank not in ("Single", "Double", "Triple", "Quadruple"):
+        SH = ("p", pat_binds(fn["params"][0])[0][0])
+        E = e6.Exec(c, fn)
+        res = {}
+        for p_ in E.run_fn():
+            if p_.exit is not None and p_.exit[0] != "return":
                 continue
-            litn = strip(arm["body"])
-            fs = dict((a_, e_) for a_, e_ in litn["fs"]) if litn.get("k") == "struct" else {}
-            ok = e4.local_hid(fs.get("shape")) == ph if fs else False
-            d = strip(fs.get("data")) if fs else None
-            dims = []
-            if d is not None and d.get("k") == "call" and d["callee"] == "tensor::Data::" + rank:
-                inner = strip(d["args"][0])
-                nb = nested_range_build(inner)
-                cur = inner
-                if nb:
-                    dims = [e4.local_hid(z) for z in nb[0]]
-                    cur = nb[1]
-                if cur.get("k") == "call" and cur["callee"].endswith("vec::from_elem"):
-                    dims.append(e4.local_hid(cur["args"][1]))
-                    ok = ok and e4.lit_value(cur["args"][0]) == lit
-                else:
-                    ok = False
-            ctx.check("R14.3", "%s:%s" % (nm, rank), ok and dims == [h for (_, h) in binds], "%s-dims:%s" % (nm, rank), c.loc(fn, arm["body"]), "data dims = shape components, filled with %s" % lit)
+            vs = e6.variant_of(p_)
+            if SH not in vs:
+                continue
+            res.setdefault(vs[SH].split("::")[-1], []).append(p_.val if p_.exit is None else p_.exit[1])
+        for rank, n_ in (("Single", 1), ("Double", 2), ("Triple", 3), ("Quadruple", 4)):
+            vals = res.get(rank, [])
+            ok = len(vals) == 1
+            if ok:
+                f = dict(vals[0][2]) if isinstance(vals[0], tuple) and vals[0] and vals[0][0] == "struct" else {}
+                d = f.get("data")
+                inner = d[2][0] if isinstance(d, tuple) and d and d[0] in ("var", "call") and d[1].endswith("Data::" + rank) and len(d[2]) == 1 else None
+                cn = e6.const_nest(E, inner) if inner is not None else None
+                want = [("payload", SH, "tensor::Shape::" + rank, i_) for i_ in range(n_)]
+                ok = f.get("shape") == SH and cn is not None and cn[0] == want and cn[1] == ("lit", lit)
+            ctx.check("R14.3", "%s:%s" % (nm, rank), ok, "%s-dims:%s" % (nm, rank), c.loc(fn), "data dims = shape components, filled with %s" % lit)
 
 
 def _only_pure_lets(stmts):
